@@ -2,8 +2,10 @@
    Proofs/StreamReadProofs.v, with Print Assumptions beneath.
 
    The model (Model/StreamRead.v): [exec E (init pipe is_ipc o) ops] runs the top-level
-   operations [ops] (uv_read_start / uv_read_stop / uv_close / one uv_run(NOWAIT)
-   iteration with the epoll mask the kernel reported) on a stream whose
+   operations [ops] (uv_read_start / uv_read_stop / uv_close / ORun raw wout: one
+   uv_run(NOWAIT) iteration with the epoll mask the kernel reported, wout = POLLOUT is
+   requested by a waiting uv_write, so the handle is polled also while not READING /
+   OIo ev: uv__stream_io entered directly with any mask, in any state) on a stream whose
    read()/recvmsg() answers are the list [o]; [allocs E k] is what the k-th alloc_cb
    returns, [beh E k] the API calls the k-th read callback makes; [pipe] says whether the
    stream is a uv_pipe_t (no READ_PARTIAL there since commit 34f0ffa), [is_ipc] whether
@@ -39,7 +41,10 @@ Print Assumptions C06_alloc_paired.
 
 (* After UV_EOF, a read error (nread < 0 other than the user's own UV_ENOBUFS),
    uv_read_stop or uv_close there is no alloc or read callback until uv_read_start
-   returns 0 again - and it never does after uv_close. *)
+   returns 0 again - and it never does after uv_close.  This includes every io event
+   that reaches uv__stream_io while READING is clear (handle still polled for POLLOUT,
+   peer hangs up or resets: POLLHUP/POLLERR enter uv__read, whose loop guard tests the
+   READING flag, not only read_cb - which UV_EOF and read errors leave set). *)
 Theorem C06_silent_until_restart :
   forall (E : env) (pipe is_ipc : bool) (o : list ans) (ops : list op),
   silent true false (snd (exec E (init pipe is_ipc o) ops)) = true.
@@ -100,7 +105,7 @@ Print Assumptions C06_shortcut_needs_short_read_hypothesis.
 
 (* ... and the same kernel answers on the repaired IPC pipe: "A", "BBBB", one UV_EOF. *)
 Example C06_item20_repaired :
-  let tr := snd (exec wit_env (init true true wit_oracle) [OStart 1; ORun 17; ORun 17; ORun 17; ORun 17]) in
+  let tr := snd (exec wit_env (init true true wit_oracle) [OStart 1; ORun 17 false; ORun 17 false; ORun 17 false; ORun 17 false]) in
   kernel_ok false monB0 tr /\
   delivered tr = [(0, 1); (1, 4)] /\
   filter (fun e => match e with ERead _ n _ _ _ => n =? UV_EOF | _ => false end) tr =
@@ -130,10 +135,11 @@ Theorem C06_state_invariant :
 Proof. exact state_invariant. Qed.
 Print Assumptions C06_state_invariant.
 
-(* Starvation bound: one wake-up (one uv_run iteration, from any state, any epoll mask)
-   makes at most 32 alloc_cb calls, hence at most 32 buffer-carrying read callbacks. *)
+(* Starvation bound: one operation - in particular one wake-up (uv_run iteration or direct
+   uv__stream_io event), from any state, with any mask - makes at most 32 alloc_cb calls,
+   hence at most 32 buffer-carrying read callbacks. *)
 Theorem C06_budget :
-  forall (E : env) (s : st) (raw : Z), (nallocs (snd (run_once E s raw)) <= 32)%nat.
+  forall (E : env) (s : st) (o : op), (nallocs (snd (op_run E s o)) <= 32)%nat.
 Proof. exact budget. Qed.
 Print Assumptions C06_budget.
 
@@ -149,7 +155,7 @@ Print Assumptions C06_monitor_accepts_model.
 (* the kernel hypothesis is satisfiable on a run that ends in the short-cut UV_EOF *)
 Example C06_eof_hypotheses_satisfiable :
   let tr := snd (exec (mkEnv (fun _ => mkBuf true 64) (fun _ => [])) (init false false [Data 5])
-                      [OStart 1; ORun 17; ORun 17]) in
+                      [OStart 1; ORun 17 false; ORun 17 false]) in
   kernel_ok true monB0 tr /\ In (ERead 1 UV_EOF None 0 0) tr /\ delivered tr = [(0, 5)].
 Proof. exact eof_hypotheses_satisfiable. Qed.
 Print Assumptions C06_eof_hypotheses_satisfiable.
